@@ -462,7 +462,12 @@ func (b *BetweenExpr) SQL() string {
 
 func (s *SelectorExpr) SQL() string {
 	p := exprPrec(s)
-	return paren(p, s.Expr) + "." + s.Ident.SQL()
+	e := paren(p, s.Expr)
+	// "1.f" would lex as the float literal "1." glued to "f": keep a blank after an integer literal ("1 .f").
+	if _, ok := s.Expr.(*IntLiteral); ok {
+		e += " "
+	}
+	return e + "." + s.Ident.SQL()
 }
 
 func (i *IndexExpr) SQL() string {
